@@ -289,6 +289,36 @@ struct MutState {
     done: AtomicBool,
 }
 
+static DROP_PANICS_ARMED: AtomicBool = AtomicBool::new(true);
+static DROP_PANICS: AtomicU64 = AtomicU64::new(0);
+static UNEXPECTED_PANICS: AtomicU64 = AtomicU64::new(0);
+
+/// Captured by some actions: its Drop panics (inside the library's removal call, which drops the last reference).
+struct PanicOnDrop;
+
+impl Drop for PanicOnDrop {
+    fn drop(&mut self) {
+        if DROP_PANICS_ARMED.load(Ordering::SeqCst) && !std::thread::panicking() {
+            DROP_PANICS.fetch_add(1, Ordering::SeqCst);
+            panic!("captured state panics in Drop");
+        }
+    }
+}
+
+/// A caught panic is expected if it is the one of `PanicOnDrop` (whichever removal call dropped the last reference).
+fn note_panic(payload: Box<dyn std::any::Any + Send>) {
+    let msg = payload.downcast_ref::<&str>().map(|s| s.to_string()).or_else(|| payload.downcast_ref::<String>().cloned()).unwrap_or_default();
+    if !msg.contains("captured state panics in Drop") {
+        UNEXPECTED_PANICS.fetch_add(1, Ordering::SeqCst);
+        if let Ok(mut g) = UNEXPECTED_MSG.try_lock() {
+            if g.is_empty() {
+                *g = msg;
+            }
+        }
+    }
+}
+static UNEXPECTED_MSG: std::sync::Mutex<String> = std::sync::Mutex::new(String::new());
+
 fn free_mode(seed: u64, rounds: u64, round_ms: u64) -> i32 {
     crate::set_thread(1, class::MAIN);
     director::install();
@@ -333,7 +363,26 @@ fn free_mode(seed: u64, rounds: u64, round_ms: u64) -> i32 {
                 }
                 st.idle.store(false, Ordering::SeqCst);
                 let s = *rng.pick(&shared);
-                match rng.below(100) {
+                let choice = rng.below(103);
+                if choice >= 100 {
+                    // an action whose captured state panics when it is dropped: the removal call unwinds (a panic in a
+                    // mutator); every later registry call of every thread must still work
+                    let p = PanicOnDrop;
+                    let reg = std::panic::catch_unwind(std::panic::AssertUnwindSafe(|| unsafe { signal_hook_registry::register(s, move || { let _ = &p; }) }));
+                    match reg {
+                        Ok(Ok(id)) => {
+                            if let Err(p) = std::panic::catch_unwind(std::panic::AssertUnwindSafe(|| signal_hook_registry::unregister(id))) {
+                                note_panic(p);
+                            }
+                        }
+                        Ok(Err(_)) => {}
+                        Err(p) => note_panic(p),
+                    }
+                    director::lib_exit();
+                    st.ops.fetch_add(1, Ordering::SeqCst);
+                    continue;
+                }
+                let op_result = std::panic::catch_unwind(std::panic::AssertUnwindSafe(|| match choice {
                     0..=34 => {
                         if let Ok(id) = unsafe { signal_hook_registry::register(s, || ()) } {
                             live.push(id);
@@ -382,14 +431,26 @@ fn free_mode(seed: u64, rounds: u64, round_ms: u64) -> i32 {
                     _ => {
                         inst = None; // drop of a Signals instance
                     }
+                }));
+                if let Err(p) = op_result {
+                    // none of these calls is documented to panic (the documented ones are caught where they are made)
+                    note_panic(p);
+                    let i = inst.take();
+                    if let Err(p) = std::panic::catch_unwind(std::panic::AssertUnwindSafe(|| drop(i))) {
+                        note_panic(p);
+                    }
                 }
                 director::lib_exit();
                 st.ops.fetch_add(1, Ordering::SeqCst);
             }
             for id in live {
-                signal_hook_registry::unregister(id);
+                if let Err(p) = std::panic::catch_unwind(std::panic::AssertUnwindSafe(|| signal_hook_registry::unregister(id))) {
+                    note_panic(p);
+                }
             }
-            drop(inst);
+            if let Err(p) = std::panic::catch_unwind(std::panic::AssertUnwindSafe(|| drop(inst))) {
+                note_panic(p);
+            }
             director::flush_counts();
             st.done.store(true, Ordering::SeqCst);
             // stay a valid signal target until the killers are gone
@@ -515,10 +576,18 @@ fn free_mode(seed: u64, rounds: u64, round_ms: u64) -> i32 {
         let _ = j.join();
     }
     let total_ops: u64 = states.iter().map(|s| s.ops.load(Ordering::SeqCst)).sum();
+    DROP_PANICS_ARMED.store(false, Ordering::SeqCst);
+    let unexpected = UNEXPECTED_PANICS.load(Ordering::SeqCst);
+    if unexpected > 0 {
+        emit_violation("C18", "registry-call-panics-after-a-mutator-panicked", &format!(
+            "{} registry / iterator calls that are not documented to panic did panic ({} removals had unwound before because the removed action's captured state panics in Drop, {} documented forbidden-signal panics): a panic in one mutator wedges later ones; first message: {:?}",
+            unexpected, DROP_PANICS.load(Ordering::SeqCst), panics_caught.load(Ordering::SeqCst), UNEXPECTED_MSG.lock().map(|g| g.clone()).unwrap_or_default()));
+    }
     emit(&J::obj()
         .set("type", J::s("summary"))
         .set("workload", J::s("w_live"))
         .set("mode", J::s("free"))
+        .set("removals_unwound_by_a_panicking_drop", J::u(DROP_PANICS.load(Ordering::SeqCst)))
         .set("seed", J::u(seed))
         .set("evaluations", J::u(quiescent_points))
         .set("distinct_keys", J::arr((0..quiescent_points.min(500)).map(|q| J::s(&format!("q{}", q)))))
@@ -529,9 +598,9 @@ fn free_mode(seed: u64, rounds: u64, round_ms: u64) -> i32 {
         .set("concurrent_first_registrations", J::u(first_regs.load(Ordering::SeqCst)))
         .set("signals_sent", J::u(sent))
         .set("barrier_spins", J::u(SPINS.load(Ordering::SeqCst)))
-        .set("violations", J::u(0))
+        .set("violations", J::u((unexpected > 0) as u64))
         .set("wall_ms", J::u(crate::now_ms() - t0)));
-    0
+    if unexpected > 0 { 1 } else { 0 }
 }
 
 pub fn main(args: &[String]) -> i32 {
